@@ -209,8 +209,8 @@ FP_EPS = 100            # 1e-6 * N
 
 
 def c2_scenarios(tier):
-    ps = [0.0, 0.25, 0.5, 0.75, 1.0]
-    rhos = [0.01, 0.1, 0.5]
+    ps = [0.0, 0.25, 0.75, 1.0] if tier == "quick" else [0.0, 0.25, 0.5, 0.75, 1.0]
+    rhos = [0.01, 0.5] if tier == "quick" else [0.01, 0.1, 0.5]
     tmaxs = [5, 20] if tier == "quick" else [1, 5, 20, 40]
     out = []
     for pk in sorted(PKS):
@@ -675,13 +675,13 @@ def c4_task(task):
 # =================================================================================================
 def c5_scenarios(tier):
     out = []
-    rates = [(0.5, 1.0), (1.0, 1.0), (2.0, 1.0), (1.0, 0.5), (0.25, 1.0)]
-    ps = [0.25, 0.5, 0.75, 1.0]
-    rhos = [0.001, 0.01, 0.1, 0.5]
+    rates = [(0.5, 1.0), (2.0, 1.0), (1.0, 0.5)]
+    ps = [0.25, 0.5, 1.0]
+    rhos = [0.001, 0.1, 0.5]
     if tier != "quick":
-        rates += [(4.0, 1.0), (1.0, 2.0), (0.5, 0.5)]
-        ps += [0.125, 0.9]
-        rhos += [0.25, 0.9]
+        rates += [(1.0, 1.0), (0.25, 1.0), (4.0, 1.0), (1.0, 2.0), (0.5, 0.5)]
+        ps += [0.75, 0.125, 0.9]
+        rhos += [0.01, 0.25, 0.9]
     for pk in sorted(PKS):
         for rho in rhos:
             for tau, gamma in rates:
@@ -710,7 +710,7 @@ def c5_scenarios(tier):
     return out
 
 
-ITS = 4000
+ITS = 2000
 
 
 def _long_time(run, N, discrete):
